@@ -31,6 +31,8 @@ def Schema.ptrDepth : Schema → Nat
   | .tagNum _ e => e.ptrDepth + 1   -- the wrapper's own raw pass costs a step
   | .bstr e => e.ptrDepth
   | .wrap e => e.ptrDepth
+  | .coseKey => 1                   -- raw pass first, like the tag wrappers
+  | .chunk => 1
   | _ => 0
 def Fields.ptrDepth : Fields → Nat
   | .nil => 0
@@ -119,6 +121,26 @@ def confAnyPairsB : Nat → List (AnyVal × AnyVal) → Bool
   | d, (k, v) :: ps => k.comparable && confAnyB d k && confAnyB d v && confAnyPairsB d ps
 end
 
+/-- the `interface{}` element a devmod module name is written as -/
+def chunkAny : Val → AnyVal
+  | .text t => .text t
+  | _ => .null
+
+def chunkIsText : Val → Bool
+  | .text _ => true
+  | _ => false
+
+/-- the array a `DevmodModulesChunk` is written as: start, count, then the module names -/
+def chunkArr (a b : Int) (ms : List Val) : AnyVal := .arr (.int a :: .int b :: ms.map chunkAny)
+
+/-- `cose.Key.UnmarshalCBOR` insists on a key type (label 1) that is neither 0 nor "Reserved" -/
+def ktyOK (ps : List (Val × Val)) : Bool :=
+  match ps.find? (fun p => p.1.keyEq (.int 1)) with
+  | some (_, .any (.int 0)) => false
+  | some (_, .any (.text t)) => !(t == "Reserved".toUTF8.toList)
+  | some _ => true
+  | none => false
+
 mutual
 /-- schema is in the proved fragment -/
 def Schema.inFragment : Schema → Bool
@@ -142,6 +164,8 @@ def Schema.inFragment : Schema → Bool
   | .timestamp => true
   | .label => true
   | .any => true
+  | .coseKey => true
+  | .chunk => true
   | _ => false
 def Fields.inFragment : Fields → Bool
   | .nil => true
@@ -190,6 +214,8 @@ def wconf : Nat → Nat → Schema → Val → Bool
     | .timestamp, .time z _ => z || decide (1 ≤ d)
     | .label, _ => true
     | .any, .any a => confAnyB d a
+    | .coseKey, .map ps => wconf g d (.mapOf .label .any) (.map ps)
+    | .chunk, .strct [.int a, .int b, .list ms] => ms.all chunkIsText && confAnyB d (chunkArr a b ms)
     | .raw, .raw b =>
       match decode (2 * b.length + 1) d b with
       | some (_, []) => true
@@ -238,6 +264,10 @@ def conf (ok : CertOracle) : Nat → Nat → Schema → Val → Bool
     | .timestamp, .time z u => decide ((z = true → u = 0) ∧ -9223372036854775808 ≤ u ∧ u ≤ 9223372036854775807)
     | .label, l => labelOK l
     | .any, .any a => confAnyB d a
+    | .coseKey, .map ps =>
+      conf ok g maxDepth (.mapOf .label .any) (.map ps) && wconf g d (.mapOf .label .any) (.map ps) && ktyOK ps
+    | .chunk, .strct [.int a, .int b, .list ms] =>
+      ms.all chunkIsText && confAnyB d (chunkArr a b ms) && confAnyB maxDepth (chunkArr a b ms)
     | .raw, .raw b =>
       -- cbor.RawBytes holds exactly one well-formed item
       match decode (2 * b.length + 1) d b with
